@@ -114,7 +114,7 @@ func registerCrypto(ex *Executor) {
 		data0, _ := ex.bytesTerm(st, args[2])
 		// failure is a deterministic (uninterpreted) function of key and plaintext
 		if ex.branch(st, smt.App("aead_encrypt_fails", smt.Bool, w.Key, data0)) {
-			st.ND = append(st.ND[:len(st.ND):len(st.ND)], NDRec{Kind: "ext-fail", Tag: "Wrapper.Encrypt fails", T: smt.True})
+			st.ND = append(st.ND[:len(st.ND):len(st.ND)], NDRec{Kind: "ext-fail-on", Tag: "Wrapper.Encrypt fails", T: data0})
 			st.note("Encrypt fails")
 			return TupleV{Ptr{}, ex.mkErr(st, "encrypt-failure")}, cNext
 		}
